@@ -9,17 +9,9 @@ import (
 	"go.uber.org/cff"
 )
 
-// Task, Slice and Map options held in variables.
+// A Task option held in a variable.
 func F(ctx context.Context, o cff.TaskOption) (int, error) {
 	var n int
 	err := cff.Flow(ctx, cff.Results(&n), cff.Task(func() int { return 1 }, o))
 	return n, err
-}
-
-func G(ctx context.Context, xs []int, o cff.SliceOption) error {
-	return cff.Parallel(ctx, cff.Slice(func(int, int) {}, xs, o))
-}
-
-func H(ctx context.Context, m map[string]int, o cff.MapOption) error {
-	return cff.Parallel(ctx, cff.Map(func(string, int) {}, m, o))
 }
